@@ -5,8 +5,10 @@ import (
 	"os"
 	"os/exec"
 	"path/filepath"
+	"runtime"
 	"sort"
 	"strings"
+	"sync"
 
 	"taskverif/an"
 )
@@ -119,58 +121,105 @@ func thorough(c *an.Ctx, prop string, seed int64, extra map[string]interface{}) 
 	add(filepath.Join(VerifDir, "variants", "neutral", "*.diff"), &neutral)
 	broken := 0
 	fired, silent := 0, 0
-	runVariant := func(patch, kind string) {
-		name := filepath.Base(patch)
-		if name == "patch.diff" {
-			name = filepath.Base(filepath.Dir(patch))
-		}
-		name = strings.TrimSuffix(name, ".diff")
-		dir, err := scratchCopy(root, patch)
-		if err != nil {
-			results = append(results, vres{name, kind, "skipped: does not apply to the current tree", nil})
-			return
-		}
-		defer os.RemoveAll(dir)
-		bad, _, err := runOn(prop, an.LoadOpts{Root: dir})
-		if err != nil {
-			results = append(results, vres{name, kind, "skipped: variant does not load: " + firstLine(err.Error()), nil})
-			return
-		}
-		var rules []string
-		seen := map[string]bool{}
-		for _, o := range bad {
-			if !seen[o.Rule] {
-				seen[o.Rule] = true
-				rules = append(rules, o.Rule)
-			}
-		}
-		sort.Strings(rules)
-		switch kind {
-		case "breaking":
-			if len(bad) > 0 {
-				fired++
-				results = append(results, vres{name, kind, "fired", rules})
-			} else if expectedMiss[name] {
-				results = append(results, vres{name, kind, "not detected (documented miss)", nil})
-			} else {
-				broken++
-				results = append(results, vres{name, kind, "NOT DETECTED", nil})
-			}
-		case "neutral":
-			if len(bad) == 0 {
-				silent++
-				results = append(results, vres{name, kind, "silent", nil})
-			} else {
-				broken++
-				results = append(results, vres{name, kind, "FALSE ALARM", rules})
-			}
-		}
+	// each variant is analysed by a fresh process of this binary (quick tier) on its scratch copy: the
+	// copies are independent, so they run in parallel, and a variant that makes the analysis run away
+	// cannot take the thorough run with it
+	self, _ := os.Executable()
+	type job struct {
+		patch, kind string
+		res         vres
+		status      string // fired / silent / skipped
 	}
+	var jobs []*job
 	for _, pch := range breaking {
-		runVariant(pch, "breaking")
+		jobs = append(jobs, &job{patch: pch, kind: "breaking"})
 	}
 	for _, pch := range neutral {
-		runVariant(pch, "neutral")
+		jobs = append(jobs, &job{patch: pch, kind: "neutral"})
+	}
+	workers := runtime.NumCPU() / 2
+	if workers < 1 {
+		workers = 1
+	}
+	if workers > 8 {
+		workers = 8
+	}
+	ch := make(chan *job)
+	var wg sync.WaitGroup
+	for w := 0; w < workers; w++ {
+		wg.Add(1)
+		go func() {
+			defer wg.Done()
+			for j := range ch {
+				name := filepath.Base(j.patch)
+				if name == "patch.diff" {
+					name = filepath.Base(filepath.Dir(j.patch))
+				}
+				name = strings.TrimSuffix(name, ".diff")
+				j.res = vres{Name: name, Kind: j.kind}
+				dir, err := scratchCopy(root, j.patch)
+				if err != nil {
+					j.res.Result, j.status = "skipped: does not apply to the current tree", "skipped"
+					continue
+				}
+				vdir, _ := os.MkdirTemp("", "taskverif-variant-verif-")
+				os.MkdirAll(filepath.Join(vdir, "evidence"), 0o755)
+				if data, err := os.ReadFile(filepath.Join(VerifDir, "known_findings.txt")); err == nil {
+					os.WriteFile(filepath.Join(vdir, "known_findings.txt"), data, 0o644)
+				}
+				cmd := exec.Command(self, "-prop", prop, "-tier", "quick", "-root", dir, "-verif", vdir)
+				out, _ := cmd.CombinedOutput()
+				code := cmd.ProcessState.ExitCode()
+				os.RemoveAll(dir)
+				os.RemoveAll(vdir)
+				seen := map[string]bool{}
+				for _, line := range strings.Split(string(out), "\n") {
+					f := strings.Fields(line)
+					if len(f) >= 2 && (f[0] == "violated" || f[0] == "undischarged") && !seen[f[1]] {
+						seen[f[1]] = true
+						j.res.Rules = append(j.res.Rules, f[1])
+					}
+				}
+				sort.Strings(j.res.Rules)
+				switch code {
+				case 0:
+					j.status = "silent"
+				case 1:
+					j.status = "fired"
+				default:
+					j.status = "infra"
+					j.res.Rules = append(j.res.Rules, "INFRA:"+firstLine(strings.TrimSpace(string(out))))
+				}
+			}
+		}()
+	}
+	for _, j := range jobs {
+		ch <- j
+	}
+	close(ch)
+	wg.Wait()
+	for _, j := range jobs {
+		switch {
+		case j.status == "skipped":
+		case j.status == "infra":
+			broken++
+			j.res.Result = "CHECKER FAILED"
+		case j.kind == "breaking" && j.status == "fired":
+			fired++
+			j.res.Result = "fired"
+		case j.kind == "breaking" && expectedMiss[j.res.Name]:
+			j.res.Result = "not detected (documented miss)"
+		case j.kind == "breaking":
+			broken++
+			j.res.Result = "NOT DETECTED"
+		case j.kind == "neutral" && j.status == "silent":
+			silent++
+			j.res.Result = "silent"
+		default:
+			broken++
+			j.res.Result = "FALSE ALARM"
+		}
+		results = append(results, j.res)
 	}
 	extra["seeded_variants"] = map[string]interface{}{"fired": fired, "total": len(breaking)}
 	extra["neutral_variants"] = map[string]interface{}{"silent": silent, "total": len(neutral)}
@@ -178,7 +227,7 @@ func thorough(c *an.Ctx, prop string, seed int64, extra map[string]interface{}) 
 	if broken > 0 {
 		// a checker that misses its own seeded variant or alarms on a neutral one is broken: exit 2
 		for _, r := range results {
-			if r.Result == "NOT DETECTED" || r.Result == "FALSE ALARM" {
+			if r.Result == "NOT DETECTED" || r.Result == "FALSE ALARM" || r.Result == "CHECKER FAILED" {
 				fmt.Printf("INFRA: checker self-validation failed for %s: %s variant %s: %s %v\n", prop, r.Kind, r.Name, r.Result, r.Rules)
 			}
 		}
